@@ -136,9 +136,7 @@ def run(tier, v):
     cov["selftest_rejected"] = vlib.selftest_reject("TransferObs", "TransferObs_c12.cfg", files[0], corrupt)
     if not cov["selftest_rejected"]:
         raise vlib.Infra("binding self-test failed")
-    # extension beyond the listed properties (never a verdict on C12): the sender's adaptive buffer
-    # size and the receiver's acceptance bound for DATA blocks (spec/BufSize.tla)
-    vlib.run_extension("x01", tier, cov)
+    # (extension X01, the sender's adaptive buffer size and the receiver's acceptance bound, runs inside C04's check)
     return cov
 
 
